@@ -15,7 +15,7 @@ out = ["# Seeded changes\n",
        "| seed | property | needs, in order to manifest | caught by |", "|---|---|---|---|"]
 for d in rows:
     out.append("| %s | %s | %s | %s |" % (d['id'], d['property'], d['needs_to_manifest'], d['caught_by']))
-missed = [d for d in rows if 'was missed' in d['caught_by']]
+missed = [d for d in rows if 'was missed' in d['caught_by'] or 'after adding' in d['caught_by']]
 out.append("\n%d seeded changes; %d of them were missed by the quick tier when first tried and led to a stronger generator (see the `caught by` column and DESIGN.md 11.5)." % (len(rows), len(missed)))
 open('/verif/seeded/README.md', 'w').write("\n".join(out) + "\n")
 print(len(rows), "seeds")
